@@ -22,7 +22,7 @@ package main
 // Not judged (the statement is silent): the text of the diagnostic line (only
 // counted: does it contain the library's error text), standard error, the
 // dynamic type of `args` (scripts never ask for it), error messages that span
-// several lines (excluded: "one diagnostic line" cannot hold then), interactive
+// several lines (excluded while c18PendingFix_multiLineDiagnostic), interactive
 // mode.
 
 import (
@@ -175,6 +175,13 @@ func c18RunLib(self, dir, src string, args []string) c18Lib {
 
 // ---------------------------------------------------------------------------
 // oracle
+
+// c18PendingFix_multiLineDiagnostic: the command prints an error text that
+// contains a newline (throw("a\nb")) unchanged, so "one diagnostic line" does
+// not hold for it (anko.go runNonInteractive; see C18-r5-genuine.md). While
+// true, failing scripts whose library error text spans lines are excluded (as
+// they always were); set to false once the command keeps the diagnostic on one line.
+const c18PendingFix_multiLineDiagnostic = false
 
 func c18Clip(s string) string {
 	if len(s) > 600 {
@@ -1236,8 +1243,9 @@ func (x *c18Ctx) check(mode string, sc *c18Script, argv, scriptArgs []string, li
 		c.Excluded("library-panicked")
 		return
 	}
-	if lib.Class != "ok" && strings.Contains(strings.TrimRight(lib.ErrText, "\n"), "\n") {
-		// "one diagnostic line" cannot be demanded for an error text that spans lines
+	if c18PendingFix_multiLineDiagnostic && lib.Class != "ok" && strings.Contains(strings.TrimRight(lib.ErrText, "\n"), "\n") {
+		// an error text that spans lines is printed as it is, so the diagnostic has as
+		// many lines (reported in C18-r5-genuine.md; judged like any other once repaired)
 		c.Excluded("multi-line-error-text")
 		return
 	}
@@ -1396,23 +1404,30 @@ func init() {
 				chunk = 250
 			}
 			nf := c18FixedCount()
+			nR5 := len(c18FixedR5) + 96
+			if tier == "thorough" {
+				nR5 = len(c18FixedR5) + 8000
+			}
 			return fw.Plan{
 				Level: "exploration",
 				Rule: "every script is run three ways: by the library driver (vm.Execute in a child of the worker, environment = args + core.Import + linked packages, stdout captured), by the built anko executable as a file argument with 0-3 trailing arguments, and by the executable with -e (same source, same positional arguments). " +
 					"phase fixed: hand-written scripts (each printer, layouts, parse/lexer errors before and after prints, run errors at top level / in a function / in a loop / after a partial line, every safe package, big outputs, args observers x 8 argument vectors incl. flag-like words after the file name) and unreadable paths (missing, directory, empty path) with and without trailing arguments. " +
 					"phase gen: PRNG template programs (prints through println/print/printf, control flow, functions, try/catch, maps, modules, imports from the safe list, args observers): 40% unchanged, 28% with garbage inserted at / source truncated at a PRNG-chosen token, 28% with a failing statement inserted after k top-level statements, 4% unreadable paths. " +
+					"phase diag-env (c18_r5.go): hand-written scripts first, then PRNG scripts of two families, each placed at top level / in a function / a loop / a closure / a try whose catch prints or throws again / a try with finally / after a partial line: (A) failing scripts whose error text carries script data with a '%' in it (a trailing %, %d, %s, %!, %[1]d, ...; thrown strings and Go error values, import/load of missing names, Go errors and panics quoting an operand, an argument of the command line), (B) scripts that use or ask defined() about a name no scope defines: names of bundled packages without an import (strings, os, fmt, json, ...), names of the command's own source (e, file, version, ...), in expression, call, member, assignment, loop, switch and type positions, next to scripts that import the package under that name. " +
 					"An evaluation = one CLI run compared with the library run; non-trivial when the library printed something or returned an error; distinct = distinct (mode, source, args).",
 				Assumptions: []string{
 					"the library driver's environment (env.NewEnv, Define args []string, core.Import, blank import of packages) is 'an equally prepared environment'",
 					"Go flag conventions: flags precede positionals; after the file name every word is a script argument; flag-like words are not positional in -e mode (left out there)",
 					"the diagnostic line's text is not specified: any single non-blank line is accepted (its relation to the library's error text is only counted)",
 					"for an unreadable file both 'no output' and 'one diagnostic line' are accepted on stdout; stderr is never judged",
-					"error texts spanning several lines, library panics, -e \"\" and interactive mode are outside the domain",
+					"error texts spanning several lines are excluded while c18PendingFix_multiLineDiagnostic is set (reported defect); library panics and interactive mode are outside the domain",
+					"'the bundled packages available' means importable with import(): a name that no scope defines is undefined for the command exactly when it is for vm.Execute in the library driver's environment, whatever the name is",
 					"a mismatch is reported only when it reproduces on a second run of both sides (otherwise inconclusive)",
 				},
 				Phases: []fw.Phase{
 					{Name: "fixed", Cases: nf, Chunk: (nf + 15) / 16, TimeoutS: 900, NeedsAnko: true},
 					{Name: "gen", Cases: nGen, Chunk: chunk, TimeoutS: 1800, NeedsAnko: true},
+					{Name: "diag-env", Cases: nR5, Chunk: chunk, Jobs: 4, MemMB: 3072, TimeoutS: 1800, NeedsAnko: true},
 				},
 			}
 		},
@@ -1420,6 +1435,10 @@ func init() {
 			x, cleanup := c18Setup(c)
 			defer cleanup()
 			if x == nil {
+				return
+			}
+			if c.Phase == "diag-env" {
+				c18RunR5(x, c)
 				return
 			}
 			if c.Phase == "fixed" {
